@@ -1,9 +1,11 @@
 open Common
 (* Driver of the extracted regex-validator model.
-   seq  : dbg  n (pattern:str u:0/1)*n     -> per item: 0 | 1 <msgclass> | 2 <site> | 3 | 4 (not reached after a panic)
-   rule : dbg  n (pattern:str flags:str)*n -> per item: 0 no report | 1 report | 2 panic | 3 fuel | 4 not reached
-   flags: flags:str                        -> 0 ok | 1 <msgclass>
-   dirty: dbg  pattern:str flags:str       -> like rule for one regex, starting from RuleDecision.dirty_vst *)
+   (the leading token of seq/rule/dirty is the former debug_build flag: still read, ignored since the digit
+   accumulators saturate identically in debug and release builds)
+   seq  : _  n (pattern:str u:0/1)*n     -> per item: 0 | 1 <msgclass> | 2 <site> | 3 | 4 (not reached after a panic)
+   rule : _  n (pattern:str flags:str)*n -> per item: 0 no report | 1 report | 2 panic | 3 fuel | 4 not reached
+   flags: flags:str                      -> 0 ok | 1 <msgclass>
+   dirty: _  pattern:str flags:str       -> like rule for one regex, starting from RuleDecision.dirty_vst *)
 let out_decision (d : RuleDecision.decision option) =
   match d with
   | None -> out_int 4
@@ -13,7 +15,7 @@ let out_decision (d : RuleDecision.decision option) =
   | Some RuleDecision.RuleFuel -> out_int 3
 
 let run_seq () =
-  let dbg = read_bool () in
+  let _ = read_bool () in
   let items = read_list (fun () -> let p = read_str () in let u = read_bool () in (p, u)) in
   L.iter (fun o ->
       match o with
@@ -22,12 +24,12 @@ let run_seq () =
       | RuleDecision.SPanic p -> out_int 2; out_n p
       | RuleDecision.SFuel -> out_int 3
       | RuleDecision.SNotReached -> out_int 4)
-    (RuleDecision.validate_seq dbg Validator.init_vst items)
+    (RuleDecision.validate_seq Validator.init_vst items)
 
 let run_rule () =
-  let dbg = read_bool () in
+  let _ = read_bool () in
   let items = read_list (fun () -> let p = read_str () in let f = read_str () in (p, f)) in
-  L.iter out_decision (RuleDecision.check_file dbg Validator.init_vst items)
+  L.iter out_decision (RuleDecision.check_file Validator.init_vst items)
 
 let run_flags () =
   let f = read_str () in
@@ -36,10 +38,10 @@ let run_flags () =
   | Some m -> out_int 1; out_n m
 
 let run_dirty () =
-  let dbg = read_bool () in
+  let _ = read_bool () in
   let p = read_str () in
   let f = read_str () in
-  let (d, _) = RuleDecision.check_regex dbg RuleDecision.dirty_vst p f in
+  let (d, _) = RuleDecision.check_regex RuleDecision.dirty_vst p f in
   out_decision (Some d)
 
 let () = main [("seq", run_seq); ("rule", run_rule); ("flags", run_flags); ("dirty", run_dirty)]
